@@ -183,3 +183,71 @@ class pick_molecules:
             "(0, result._pos.shape[0]))",
         "one_feature_row_per_pick": "result._features.n == result._pos.shape[0]",
     }
+
+
+# ---------------------------------------------------------------------------
+# parameters in pixels, overlap depth against the dependency radius of the per-chunk pipeline
+from pyvc.values import ceil_ as _ceil, trunc as _trunc
+
+_HP = dict(ceil=_ceil, trunc=_trunc)
+
+
+@contract("acryo.pick._concrete:LoGPicker.get_params_and_depth", props=["C20"])
+class log_params:
+    """sigma is converted to pixels with the scale; `overlap_covers_dependency_radius`: a voxel of the chunk's core
+    must see everything its response depends on -- the Laplacian-of-Gaussian kernel reaches int(4*sigma_px + 0.5)
+    voxels (scipy's truncation, trusted) and the local-maximum test a further ceil(sigma_px)"""
+    params = dict(self=T.Obj("acryo.pick._concrete:LoGPicker", dict(_sigma=T.Real(lo=0))), scale=T.Real(lo=0))
+    requires = ["scale > 0", "self._sigma > 0"]
+    helpers = _HP
+    native_call = "__import__('acryo.pick', fromlist=['x']).LoGPicker(args['self']['_sigma']).get_params_and_depth(args['scale'])"
+    native = {"sigma_in_pixels": "abs(result[0]['sigma'] - self['_sigma'] / scale) < 1e-9", "integer_depth": "isinstance(result[1], int) and result[1] >= 1",
+              "overlap_covers_dependency_radius": "result[1] >= int(4 * self['_sigma'] / scale + 0.5) + int(np.ceil(self['_sigma'] / scale))"}
+    ensures = {
+        "sigma_in_pixels": "result[0]['sigma'] == self._sigma / scale",
+        "integer_depth": "result[1] >= 1",
+        "overlap_covers_dependency_radius": "result[1] >= trunc(4 * self._sigma / scale + 0.5) + ceil(self._sigma / scale)",
+    }
+
+
+@contract("acryo.pick._concrete:DoGPicker.get_params_and_depth", props=["C20"])
+class dog_params:
+    """both sigmas in pixels; the wider Gaussian reaches int(4*sigma_high_px + 0.5) voxels, the maximum test ceil(sigma_low_px)"""
+    params = dict(self=T.Obj("acryo.pick._concrete:DoGPicker", dict(_sigma_low=T.Real(lo=0), _sigma_high=T.Real(lo=0))), scale=T.Real(lo=0))
+    requires = ["scale > 0", "self._sigma_low > 0", "self._sigma_high > self._sigma_low"]
+    helpers = _HP
+    native_call = ("__import__('acryo.pick', fromlist=['x']).DoGPicker(args['self']['_sigma_low'], args['self']['_sigma_high'])"
+                   ".get_params_and_depth(args['scale'])")
+    native = {"sigmas_in_pixels": "abs(result[0]['sigma_low'] - self['_sigma_low'] / scale) < 1e-9 and abs(result[0]['sigma_high'] - self['_sigma_high'] / scale) < 1e-9",
+              "overlap_covers_dependency_radius": "result[1] >= int(4 * self['_sigma_high'] / scale + 0.5) + int(np.ceil(self['_sigma_low'] / scale))"}
+    ensures = {
+        "sigmas_in_pixels": "result[0]['sigma_low'] == self._sigma_low / scale and result[0]['sigma_high'] == self._sigma_high / scale",
+        "overlap_covers_dependency_radius": "result[1] >= trunc(4 * self._sigma_high / scale + 0.5) + ceil(self._sigma_low / scale)",
+    }
+
+
+@contract("acryo.pick._concrete:simple_pick", props=["C20"])
+class simple_pick:
+    """LoG / DoG picks carry the identity rotation (scipy quaternion (0,0,0,1)) and keep their positions"""
+    params = dict(img=_IMG, pos=T.Arr(2, "real", min_size=0))
+    requires = ["pos.shape[1] == 3"]
+    native_call = "_mod.simple_pick(args['img'], args['pos'][:, :3] % 3)"
+    native = {"positions_kept": "result[0].shape == (pos.shape[0], 3)",
+              "identity_rotation": "bool(np.all(result[1] == np.array([0, 0, 0, 1])))", "one_score_per_pick": "result[2]['score'].shape == (pos.shape[0],)"}
+    ensures = {
+        "positions_kept": "result[0] is pos",
+        "identity_rotation": "result[1].shape == (pos.shape[0], 4) and forall(lambda k: result[1][k, 0] == 0 and result[1][k, 1] == 0 "
+                             "and result[1][k, 2] == 0 and result[1][k, 3] == 1, (0, pos.shape[0]))",
+        "one_score_per_pick": "result[2]['score'].shape[0] == pos.shape[0]",
+    }
+
+
+@contract("acryo.pick._base:BaseTemplateMatcher._index_to_quaternions", props=["C20"])
+class index_to_quaternions:
+    """the rotation reported for a pick is the searched rotation whose template gave the best score there"""
+    params = dict(self=T.Obj("acryo.pick._base:BaseTemplateMatcher", dict(_quaternions=T.Arr(2, "real"))),
+                  argmax_indices=T.Arr(1, "int", min_size=0))
+    requires = ["self._quaternions.shape[1] == 4",
+                "forall(lambda k: 0 <= argmax_indices[k] < self._quaternions.shape[0], (0, argmax_indices.shape[0]))"]
+    ensures = {"rotation_of_best_template": "result.shape == (argmax_indices.shape[0], 4) and "
+               "forall(lambda k: all(result[k, c] == self._quaternions[argmax_indices[k], c] for c in range(4)), (0, argmax_indices.shape[0]))"}
